@@ -14,7 +14,10 @@ VERIF = os.path.dirname(os.path.dirname(os.path.abspath(__file__)))
 A_PY = [
     "A-PY1 Python ints are mathematical integers (exact)",
     "A-PY2 bytes are finite sequences of ints 0..255 compared extensionally (rope encoding over uninterpreted arrays)",
-    "A-PY3 dict iteration order is insertion order; module tables are only read (writes are charged to ghost 'tables')",
+    "A-PY3 dict iteration order is insertion order; module-level state is the state at import time: discharged for stores, "
+    "dels, mutating container calls and memoising decorators rooted at a module-level name by the frame scan over every "
+    "function of the package (one alias step through locals); NOT covered: module state reached through deeper aliasing "
+    "(a global returned by a helper and then mutated), C extensions, and class attributes mutated through instances",
     "A-PY4 the engine's models of CPython built-ins (slicing, int.to_bytes/from_bytes, isinstance, struct, dict, "
     "list, str formatting) match CPython 3.12 - differentially tested, not proved",
     "A-PY5 no monkey-patching, signals or threads inside one call",
@@ -238,8 +241,11 @@ def _reader_common(p, styles=("file", "socket"), lemmas=()):
         p.replayers[u.name] = ru.replay_step
     for lm in lemmas:
         p.add(CustomUnit(f"lemma.reader/{lm}", ru.lemma_unit, (lm,), props=(p.prop,), cost=5))
-    # the configuration the step is quantified over is the one the constructor was given
+    # the configuration the step is quantified over is the one the constructor was given (or its documented defaults)
     p.func(R + "__init__")
+    from .units import factory_unit as _fu
+    lab = f"{R}__init__[defaults]"
+    p.add(CustomUnit(lab, _fu, ("contracts.reader", "_defaults_contract", None, lab), props=(p.prop,)))
     p.trusted_base += [T_PARSERS, T_PARSE_PURE, T_STREAM, T_LIFT,
                        "contracts/reader_spec.py (executable step specification, written from the framing rules); "
                        "cross-checked natively against the real reader as a bounded stand-in"]
@@ -395,6 +401,7 @@ def _instance_units(p, select, modes=(0, 1, 2)):
             p.add(u)
             p.replayers[u.name] = inst.replay_instance
             n += 1
+    p.assumptions += [A_ODDID]
     p.instances = {"message_keys": len(keys), "modes": len(modes), "instance_units": n,
                    "variants_per_instance": "payload any length x bitfield view {parsed, raw}; no payload; "
                                             "conforming payload x bitfield view"}
@@ -402,6 +409,8 @@ def _instance_units(p, select, modes=(0, 1, 2)):
     return n
 
 
+A_ODDID = ("A-ODDID constructor with class / ID byte strings other than one byte each: only the shapes UBXReader.parse "
+           "can pass (both empty, class only) are verified; other splits, which only direct callers can produce, are not")
 T_INSTANCE = ("instance mode: the definition tables are enumerated exhaustively from the working tree (finite); payload "
               "bytes, payload length and group repeat counts stay symbolic; symbolic group loops are cut by the schematic "
               "invariant offset == offset_entry + i*G, proved preserved per instance")
@@ -586,6 +595,8 @@ def plan_C08(p, tier, seed):
     _instance_units(p, r"/(raises:|C08:|.*loop1:decreases)")
     p.add(BoundedUnit("bounded.C08/str-of-messages", bounded.str_of_messages, (tier, seed), props=("C08",)))
     p.add(BoundedUnit("bounded.C08/dependency-parsers", bounded.dependency_parsers, (tier, seed), props=("C08",)))
+    from . import ground as _g
+    p.add(GroundUnit("ground.C08/translation-complete", _g.translation_complete, (), props=("C08",)))
     p.min_obligations = 8000
     p.trusted_base += [T_INSTANCE]
     _init_canary(p, "struct-error-not-translated", "pyubx2.ubxmessage", "            struct.error,\n", "", 0, "0b02")
@@ -755,6 +766,8 @@ def plan_C15(p, tier, seed):
             u.select = r"/(C15:|raises:)"
             p.add(u)
     p.add(BoundedUnit("bounded.C15/bad-values-natively", bounded.bad_values, (tier, seed), props=("C15",)))
+    from . import ground as _g
+    p.add(GroundUnit("ground.C15/translation-complete", _g.translation_complete, (), props=("C15",)))
     p.min_obligations = 3000
     p.trusted_base += [T_INSTANCE, T_KW, "float edge cases (nan / inf) enter through the built-in models of int(float) and "
                                         "struct.pack: nondeterministic ValueError / OverflowError branches (assumed complete)"]
